@@ -159,6 +159,23 @@ def mon_c03(h, outs):
         if after is not None and before is not None and all(r.get("status") != "ok" for r in o["results"]):
             if before.get("objs") != after.get("objs"):
                 fails.append(("c03:failed-request-changed-store", "a request whose items all failed changed the store", i))
+        # an object changes only through a successful item that ADDRESSES it (whose grant was checked above): whatever
+        # another requester does to his own objects leaves it as it was
+        if after is not None and before is not None:
+            an = by_uid(after)
+            for u, ob in objs.items():
+                if u in touched:
+                    continue
+                if u not in an:
+                    fails.append(("c03:object-removed-without-addressed-operation",
+                                  "object %s (owner %s) disappeared; no successful item of %s's request addressed it"
+                                  % (u, ob["owner"], ident["user"]), i))
+                elif an[u] != ob:
+                    diff = sorted(k for k in ob if an[u].get(k) != ob[k])
+                    fails.append(("c03:object-changed-without-addressed-operation:%s" % ",".join(diff),
+                                  "%s of object %s (owner %s) changed %r -> %r; no successful item of %s's request "
+                                  "addressed it" % (diff, u, ob["owner"], [ob[k] for k in diff],
+                                                    [an[u].get(k) for k in diff], ident["user"]), i))
         # owner immutable
         for u, ob in by_uid(after).items():
             if u in owners and ob["owner"] != owners[u]:
